@@ -15,14 +15,38 @@ use crate::sink::Outcome;
 use rand::Rng;
 use softposit::{Quire, P16E1, P32E2, Q16E1, Q32E2};
 
+/// splitmix64: a cheap generator seeded per tuple index, so that a tuple can be regenerated from its index alone
+pub struct Sm(pub u64);
+impl rand::RngCore for Sm {
+    fn next_u64(&mut self) -> u64 {
+        self.0 = self.0.wrapping_add(0x9E37_79B9_7F4A_7C15);
+        let mut z = self.0;
+        z = (z ^ (z >> 30)).wrapping_mul(0xBF58_476D_1CE4_E5B9);
+        z = (z ^ (z >> 27)).wrapping_mul(0x94D0_49BB_1331_11EB);
+        z ^ (z >> 31)
+    }
+    fn next_u32(&mut self) -> u32 {
+        (self.next_u64() >> 32) as u32
+    }
+    fn fill_bytes(&mut self, dest: &mut [u8]) {
+        for c in dest.chunks_mut(8) {
+            let w = self.next_u64().to_le_bytes();
+            c.copy_from_slice(&w[..c.len()]);
+        }
+    }
+    fn try_fill_bytes(&mut self, dest: &mut [u8]) -> Result<(), rand::Error> {
+        self.fill_bytes(dest);
+        Ok(())
+    }
+}
+
 pub const ARITH: [&str; 4] = ["add", "sub", "mul", "div"];
 pub const FUSED: [&str; 3] = ["mul_add", "mul_sub", "sub_product"];
 
 /// operands (n-bit patterns) aimed at alignment-sensitive cases of `op`
-fn operands(ctx: &mut Ctx, n: u32, es: u32, op: &str) -> Vec<u64> {
+fn operands<R: Rng>(rng: &mut R, n: u32, es: u32, op: &str) -> Vec<u64> {
     let f = gen::frac_bits(n, es, 0) as i32;
     let maxs = ((n - 2) << es) as i32;
-    let rng = &mut ctx.rng;
     let sgn = |p: u64, neg: bool| if neg { gen::neg(n, p) } else { p };
     let sa = if rng.gen::<bool>() { rng.gen_range(-8..9) } else { rng.gen_range(-maxs..=maxs) };
     let a = gen::from_scale(n, es, sa, rng.gen::<u64>());
@@ -106,38 +130,35 @@ fn quire16(op: &str, x: &[u64]) -> Option<u64> {
 
 const MAX_LOGGED: usize = 400;
 
-/// fixed types (P16E1, P32E2; P8E0 is enumerated elsewhere)
+/// fixed types (P16E1, P32E2; P8E0 is enumerated elsewhere): `per_op` alignment-directed tuples per operation on all
+/// cores; tuple i is generated from (seed, op, i) alone
 pub fn screen_fixed(ctx: &mut Ctx, ty: &Ty, ops: &[&'static str], per_op: usize) {
     let (n, es) = (ty.n, ty.es);
     let sp_of = |op: &str| if ARITH.contains(&op) { "o" } else { "m" };
-    for &op in ops {
-        let mut logged = 0usize;
-        for _ in 0..per_op {
-            let x = operands(ctx, n, es, op);
-            set_current(op, ty.name, sp_of(op), n, &x);
-            let got = match guarded(|| (ty.exec)(op, sp_of(op), &x)) {
-                Some(Outcome::Ok(v)) => v[0].u(),
-                Some(Outcome::Panic { .. }) => u64::MAX,
-                None => return,
+    let exec = ty.exec;
+    for (oi, &op) in ops.iter().enumerate() {
+        let base = ctx.seed.wrapping_mul(0x2545_F491_4F6C_DD1D) ^ ((n as u64) << 56) ^ ((oi as u64) << 48);
+        let tuple = move |i: u64| operands(&mut Sm(base ^ i.wrapping_mul(0xD6E8_FEB8_6659_FD93)), n, es, op);
+        set_current(op, ty.name, "sweep", n, &[per_op as u64]);
+        let (total, sel) = par_sweep(per_op as u64, 1, 0, MAX_LOGGED, |i| {
+            let x = tuple(i);
+            let got = match exec(op, sp_of(op), &x) {
+                Some(v) => v[0].u(),
+                None => return false,
             };
-            ctx.sink.screened += 1;
             let v: Vec<f64> = x.iter().map(|&p| gen::to_f64_exact(n, es, p)).collect();
             let w = f64_op(op, &v);
             let via_f64 = match n {
                 16 => P16E1::from_f64(w).to_bits() as u64,
                 _ => P32E2::from_f64(w).to_bits() as u64,
             };
-            let via_q = match guarded(|| (if n == 16 { quire16(op, &x) } else { quire32(op, &x) }).map(|b| vec![Val::U(b)])) {
-                Some(Outcome::Ok(v)) => Some(v[0].u()),
-                Some(Outcome::Panic { .. }) => Some(u64::MAX - 2),
-                None => None,
-            };
-            let differs = got != via_f64 || via_q.map_or(false, |q| q != got);
-            if differs && logged < MAX_LOGGED {
-                logged += 1;
-                *ctx.sink.per_op.entry(format!("screen-selected:{}.{}", ty.name, op)).or_insert(0) += 1;
-                ctx.call(ty, op, sp_of(op), &x);
-            }
+            let via_q = if n == 16 { quire16(op, &x) } else { quire32(op, &x) };
+            got != via_f64 || via_q.map_or(false, |q| q != got)
+        });
+        ctx.sink.screened += total;
+        for i in sel {
+            *ctx.sink.per_op.entry(format!("screen-selected:{}.{}", ty.name, op)).or_insert(0) += 1;
+            ctx.call(ty, op, sp_of(op), &tuple(i));
         }
     }
 }
@@ -145,34 +166,34 @@ pub fn screen_fixed(ctx: &mut Ctx, ty: &Ty, ops: &[&'static str], per_op: usize)
 /// generic types: every width, f64 route only
 pub fn screen_generic(ctx: &mut Ctx, t: &'static str, n: u32, ops: &[&'static str], per_op: usize) {
     let es = if t == "x1" { 1 } else { 2 };
-    let st = |p: u64| (p << (32 - n)) & 0xffff_ffff;
+    let st = move |p: u64| (p << (32 - n)) & 0xffff_ffff;
     let sp_of = |op: &str| if ARITH.contains(&op) { "o" } else { "m" };
-    for &op in ops {
+    for (oi, &op) in ops.iter().enumerate() {
         if op == "sqrt" && t == "x1" {
             continue;
         }
-        let mut logged = 0usize;
-        for _ in 0..per_op {
-            let x = operands(ctx, n, es, op);
+        let base = ctx.seed.wrapping_mul(0x2545_F491_4F6C_DD1D) ^ ((n as u64) << 56) ^ ((oi as u64) << 48) ^ ((es as u64) << 40);
+        let tuple = move |i: u64| operands(&mut Sm(base ^ i.wrapping_mul(0xD6E8_FEB8_6659_FD93)), n, es, op);
+        set_current(op, t, "sweep", n, &[per_op as u64]);
+        let (total, sel) = par_sweep(per_op as u64, 1, 0, MAX_LOGGED, |i| {
+            let x = tuple(i);
             let xs: Vec<u64> = x.iter().map(|&p| st(p)).collect();
-            set_current(op, t, sp_of(op), n, &xs);
-            let got = match guarded(|| exec_px_m(t, n, 0, op, sp_of(op), &xs)) {
-                Some(Outcome::Ok(v)) => v[0].u(),
-                Some(Outcome::Panic { .. }) => u64::MAX,
-                None => return,
+            let got = match exec_px_m(t, n, 0, op, sp_of(op), &xs) {
+                Some(v) => v[0].u(),
+                None => return false,
             };
-            ctx.sink.screened += 1;
             let v: Vec<f64> = x.iter().map(|&p| gen::to_f64_exact(n, es, p)).collect();
             let w = f64_op(op, &v);
-            let via_f64 = match guarded(|| exec_px_m(t, n, 0, "from_f64", "m", &[w.to_bits()])) {
-                Some(Outcome::Ok(v)) => v[0].u(),
-                _ => u64::MAX - 1,
-            };
-            if got != via_f64 && logged < MAX_LOGGED {
-                logged += 1;
-                *ctx.sink.per_op.entry(format!("screen-selected:{}.{}", t, op)).or_insert(0) += 1;
-                gcall(ctx, t, n, 0, op, sp_of(op), &xs);
+            match exec_px_m(t, n, 0, "from_f64", "m", &[w.to_bits()]) {
+                Some(r) => r[0].u() != got,
+                None => false,
             }
+        });
+        ctx.sink.screened += total;
+        for i in sel {
+            *ctx.sink.per_op.entry(format!("screen-selected:{}.{}", t, op)).or_insert(0) += 1;
+            let xs: Vec<u64> = tuple(i).iter().map(|&p| st(p)).collect();
+            gcall(ctx, t, n, 0, op, sp_of(op), &xs);
         }
     }
 }
